@@ -84,7 +84,7 @@ ImplOf(e) ==
     [] e.a = "Expire" -> DoExpire
     [] e.a = "Lose" -> DoLoseControllership
     [] e.a = "Remove" -> DoRemoveStream
-    [] e.a = "Rebuild" -> DoRebuild
+    [] e.a = "Rebuild" -> DoRebuild(e.args.how)
     [] e.a = "Skip" -> UNCHANGED <<exists, isr, pisr, leader, lepoch, pepoch, e0, fo, pend>>
     [] OTHER -> FALSE
 
